@@ -6,7 +6,8 @@ Run-time part: the real GenericPackageController (real unpack reconciler, Packag
 reconciler, status reconciler) runs against the recording API server with a scripted image puller on
 generated packages (valid; every invalidity class; constraints met / unmet against generated
 environments) and generated histories (spec edits incl. no-ops and reverts, pull failures, API faults
-per request number).  The stage outcomes the scenario was BUILT to produce are the oracle of the Coq
+per request number, concurrent writers that update the ObjectDeployment right before a request so
+that the controller's Update gets a Conflict).  The stage outcomes the scenario was BUILT to produce are the oracle of the Coq
 model; `C16Corr.judge` evaluates model agreement (request by request) and the property monitor."""
 import json
 
@@ -23,7 +24,7 @@ IDS = [
     "C16 configuration violating the manifest's schema does not block deployment",
     "C16 package failing validation (or with unusable constraints / image references) is deployed",
     "C16 unchanged Package is re-pulled, re-rendered or its ObjectDeployment rewritten",
-    "C16 ObjectDeployment template differs from a fresh render of the changed spec",
+    "C16 changed spec does not result in an ObjectDeployment template equal to a fresh render",
     "C16 stored ObjectDeployment template is not the render of a valid, admissible spec",
 ]
 
@@ -299,6 +300,11 @@ def fault(n, kind="err"):
     return {"op": "fault", "n": n, "kind": kind}
 
 
+def touch(n):
+    """A third party updates the ObjectDeployment right before request number n of the next pass."""
+    return {"op": "touch", "n": n}
+
+
 WITNESS = scenario(ENVS[0], spec("c-both", {"x": "a"}), [PASS, PASS])
 
 
@@ -357,6 +363,41 @@ def corpus():
     return out
 
 
+def touch_sweep():
+    """A concurrent writer before every request number of the passes that write the ObjectDeployment."""
+    out = []
+    e0 = ENVS[0]
+    g, g2 = spec("good", {"x": "a"}), spec("good2", {"x": "a"})
+    gp = spec("good", {"x": "a"}, paused=True)
+    u, u2 = spec("c-unique", None), spec("c-unique", {"x": "b"})
+    for n in range(13):
+        out.append(scenario(e0, g, [touch(n), PASS, PASS]))                                   # first deployment
+        out.append(scenario(e0, g, [PASS, edit(g2), touch(n), PASS, PASS]))                   # changed spec over an existing one
+        out.append(scenario(e0, g, [PASS, edit(gp), PASS, edit(g2), touch(n), PASS, PASS]))   # unpause + changed spec
+        out.append(scenario(e0, u, [PASS, edit(u2), touch(n), PASS, PASS], labelled=True))    # with the uniqueness List
+        out.append(scenario(e0, g, [PASS, edit(g2), touch(n), touch(n + 2), PASS, PASS]))     # two Conflicts in a row
+        out.append(scenario(e0, g, [PASS, edit(gp), touch(n), PASS, PASS]))                   # pause propagation
+    # retry budget: 4 Conflicts (fifth attempt succeeds), 5 Conflicts (given up), then a clean pass
+    for k in (3, 4, 5, 6):
+        out.append(scenario(e0, g, [PASS, edit(g2)] + [touch(3 + 2 * i) for i in range(k)] + [PASS, PASS]))
+    out.append(scenario(e0, g, [touch(4), touch(6), PASS, PASS]))
+    return out
+
+
+def touch_fault_sweep():
+    """Every pair (concurrent writer before request i, err / lost fault at request j) on an update and on a first deployment."""
+    out = []
+    e0 = ENVS[0]
+    g, g2 = spec("good", {"x": "a"}), spec("good2", {"x": "a"})
+    for kind in ("err", "lost"):
+        for i in range(11):
+            for j in range(13):
+                out.append(scenario(e0, g, [PASS, edit(g2), touch(i), fault(j, kind), PASS, PASS]))
+                if i >= 2 and (i + j) % 2 == 0:
+                    out.append(scenario(e0, g, [touch(i), fault(j, kind), PASS, PASS]))
+    return out
+
+
 def random_scenario(r):
     env = r.choice(ENVS[:4] if r.random() < 0.9 else ENVS)
 
@@ -399,6 +440,8 @@ def random_scenario(r):
         else:
             if r.random() < 0.2:
                 steps.append(fault(r.randint(0, 12), r.choice(["err", "lost"])))
+            if r.random() < 0.2:
+                steps += [touch(n) for n in sorted(r.sample(range(13), r.choice([1, 1, 2, 3])))]
             steps.append(PULLFAIL if r.random() < 0.12 else PASS)
     if not any(s["op"] == "pass" for s in steps):
         steps.append(PASS)
@@ -408,12 +451,14 @@ def random_scenario(r):
 def gen(seed, tier):
     r = vlib.rng(seed, "C16")
     out = corpus()
-    n = 200 if tier == "quick" else 3000
+    n = 260 if tier == "quick" else 3600
     if tier == "quick":
         # keep the whole witness/class/constraint part of the corpus, sample the fault sweep, fill up with random histories
         head, tail = out[:1 + len(ENVS) * len(VALID + INVALID + CONS)], out[1 + len(ENVS) * len(VALID + INVALID + CONS):]
         keep = [WITNESS] + [s for i, s in enumerate(head[1:]) if i % 5 == (i // 5) % 5 or s["package"]["image"] in CONS[:5]]
-        out = keep + r.sample(tail, min(len(tail), 70))
+        out = keep + r.sample(tail, min(len(tail), 70)) + touch_sweep()
+    else:
+        out += touch_sweep() + touch_fault_sweep()
     while len(out) < n:
         out.append(random_scenario(r))
     return out
@@ -424,7 +469,8 @@ REQ = {("get", "Package"): "KGetPkg", ("get", "ObjectDeployment"): "KGetOD", ("u
        ("list", "Package"): "KListPkg", ("create", "ObjectDeployment"): "KCreateOD", ("list", "ObjectSet"): "KListSet",
        ("list", "ObjectSlice"): "KListSlice", ("status-update", "Package"): "KStatus"}
 # the recording server reports a fault injected before the effect as Internal, a lost response as InjectedFault
-ROUT = {"": "OOk", None: "OOk", "NotFound": "ONotFound", "InjectedFault": "OFault", "Internal": "OFault"}
+ROUT = {"": "OOk", None: "OOk", "NotFound": "ONotFound", "InjectedFault": "OFault", "Internal": "OFault",
+        "Conflict": "OConflict"}
 CTYPE = {"Unpacked": "CUnpacked", "Invalid": "CInvalid"}
 CREASON = {"ImagePullBackOff": "RImagePullBackOff", "UnpackSuccess": "RUnpackSuccess", "LoadError": "RLoadError",
            "ConstraintsFailed": "RConstraintsFailed"}
@@ -465,7 +511,7 @@ def c_oracle(o):
         o["config"], cB(o["images"]), cB(o["render"]))
 
 
-def build_case(sc, obs, fixed):
+def build_case(sc, obs):
     """Coq term of the case plus bookkeeping for the report; raises Unrepresentable."""
     names = Names()
     cur = {k: sc["package"][k] for k in ("image", "config", "component", "paused") if k in sc["package"]}
@@ -481,6 +527,8 @@ def build_case(sc, obs, fixed):
             steps.append("SEdit %s" % c_spec(names.spec(cur)))
         elif st["op"] == "fault":
             steps.append("SFault %d %s" % (st["n"], "SErr" if st["kind"] == "err" else "SLost"))
+        elif st["op"] == "touch":
+            steps.append("SDisturb %d" % st["n"])
         else:
             if pi >= len(passes):
                 raise Unrepresentable("missing pass observation")
@@ -527,7 +575,7 @@ def build_case(sc, obs, fixed):
                 cL(evs), cB(p["err"] != ""), cB(p["requeue"]), cO(h), cL(conds), cO(od), p["pulls"]))
             info.append((t, o, p))
     dt = cL(["(%d, %d, %d, %d)" % (k[0], k[1], k[2], d) for k, d in sorted(dtable.items())])
-    term = "((%s, %s, %s, %s, %s) : case)" % (cB(fixed), dt, c_spec(first), cL(steps), cL(obss))
+    term = "((%s, %s, %s, %s) : case)" % (dt, c_spec(first), cL(steps), cL(obss))
     return term, info
 
 
@@ -557,12 +605,6 @@ def intent_mismatch(info):
 WITNESS_SELECTOR = None
 
 
-def follows_fixed(obs):
-    """Witness scenario: unmet platform + version constraint on an otherwise valid package.
-    True iff the implementation under test stops there (no ObjectDeployment)."""
-    return obs["passes"][0]["od"] is None
-
-
 def check(run, tier, seed, replay=None):
     run.assumptions += [
         "spec hash (SHA-256 of PackageSpec) is collision free: the model compares specs",
@@ -579,12 +621,6 @@ def check(run, tier, seed, replay=None):
     if not ok:
         run.violation("corr:harness-build", {"correspondence": "harness no longer builds against the tree", "log": blog[-4000:]}, False)
         return
-    # which Deploy does the implementation follow?
-    w = vlib.run_harness("package", [WITNESS])[0]
-    if "obs" not in w:
-        run.violation("corr:C16/witness harness error", {"scenario": WITNESS, "out": w}, False)
-        return
-    fixed = follows_fixed(w["obs"])
     global SELECTOR_DROPPED
     ws = vlib.run_harness("package", [scenario(ENVS[0], spec("c-unique", None), [PASS])])[0]
     if "obs" not in ws:
@@ -595,8 +631,6 @@ def check(run, tier, seed, replay=None):
         "ignores the package label selector: labels.Selector.Add returns a new selector and deployer.go:291 drops it, so "
         "uniqueness is judged against every Package of the cluster" if SELECTOR_DROPPED else "applies the package label selector",
         "pass succeeds" if SELECTOR_DROPPED else "ErrNonExisting"))
-    run.notes.append("implementation follows the %s model (witness: unmet platform+version constraint -> %s)" % (
-        "repaired" if fixed else "current", "no ObjectDeployment" if fixed else "ObjectDeployment written"))
     scs = [json.load(open(replay))["replay"]["scenario"]] if replay else gen(seed, tier)
     outs = vlib.run_harness("package", scs, par=8)
     terms, idx, infos = [], [], {}
@@ -605,7 +639,7 @@ def check(run, tier, seed, replay=None):
             run.violation("corr:C16/package harness error", {"scenario": sc, "out": o}, False)
             continue
         try:
-            term, info = build_case(sc, o["obs"], fixed)
+            term, info = build_case(sc, o["obs"])
         except Unrepresentable as e:
             run.violation("corr:C16/observation outside the model's vocabulary",
                           {"correspondence": str(e), "scenario": sc, "impl": o["obs"]}, False)
@@ -624,7 +658,7 @@ def check(run, tier, seed, replay=None):
     for l in logs:
         run.violation("corr:C16/coq-eval", {"correspondence": "coq evaluation failed", "log": l}, False)
     run.cov["evaluations"] = len(terms)
-    npass = 0
+    npass = nconf = 0
     stages = {}
     for i, r in zip(idx, res):
         if r is None:
@@ -637,6 +671,7 @@ def check(run, tier, seed, replay=None):
                     for _, o, p in info)
         for _, o, p in info:
             stages[stage_of(o)] = stages.get(stage_of(o), 0) + 1
+            nconf += any(e.get("err") == "Conflict" for e in p["events"])
         if len(info) >= 2 or any(stage_of(o) != "ok" for _, o, _ in info):
             run.classes.add(sig)
         agree, mons = r[0], r[1:]
@@ -644,20 +679,22 @@ def check(run, tier, seed, replay=None):
         for k, okk in enumerate(mons):
             if okk:
                 continue
-            if k == 7 and not mons[2]:
-                continue  # the stored template is the one F-C16 let through: same defect, reported once
+            if k == 7 and not (mons[2] and mons[3] and mons[4] and mons[6]):
+                continue  # the stored template is the one another failing clause let through: reported once
             concrete = True
             run.violation(IDS[k], {"scenario": sc, "impl": obs, "oracles": [o for _, o, _ in info]}, True)
         if not agree and not concrete:
             run.violation("corr:C16/package model and implementation differ",
-                          {"correspondence": "C16Corr.agree (%s model)" % ("repaired" if fixed else "current"),
+                          {"correspondence": "C16Corr.agree",
                            "scenario": sc, "impl": obs, "oracles": [o for _, o, _ in info]}, False)
     run.cov["passes"] = npass
     run.cov["passes_by_intended_stage"] = stages
-    run.cov["implementation_model"] = "repaired (constraints block)" if fixed else "current (F-C16)"
+    run.cov["passes_with_conflict"] = nconf
     run.cov["rule"] = ("fixed corpus (witness; every image class x every environment; uniqueness counts; every config; "
                        "components; no-op/revert edits; pull failures; pausing; an err/lost API fault at every request number of "
-                       "first deployment / update / short cut / pull failure / load failure / unique-constrained deployment) + random "
+                       "first deployment / update / short cut / pull failure / load failure / unique-constrained deployment; a concurrent "
+                       "writer before every request number of first deployment / update / unpause+update / unique-constrained update, "
+                       "two and five of them in a row, thorough: every pair (writer before request i, err/lost fault at request j)) + random "
                        "histories of 3-9 steps; non-trivial = at least two passes or a failing stage; distinct = per-pass tuple "
                        "(intended first failing stage, paused, hash short cut, error, requeue, ObjectDeployment empty/equals "
                        "reference render, failed requests)")
